@@ -19,6 +19,7 @@ func C06(r *core.Report) {
 		"R1 every batch parked by the background writer is flushed before it signals completion (must-pass-through from each park to the done-send), and the parking slice is created empty (a make with non-zero length followed by append/len tests is the pinned-tree defect); " +
 		"R2 Close waits for the background writer before the final synchronous flush of the accumulator, and sets the exit flag before waiting; R3 each batch is reversed (newest first) before it is serialised; R4 the batch handed to the background goroutine is a fresh copy. " +
 		"R5 the synchronous partial flush in Push is taken only under !popRank.has(key) and every hand-off of a full batch to the background writer ranks its address (popRank.Incr) - the two halves of the mechanism that keeps a short newer batch from overtaking a parked older one. " +
+		"R6 LinkedLog.Put orders its batches by address with an unstable sort, so every caller passes one batch per call or a slice that provably never holds two batches of one address (Has(key) test that flushes before parking). " +
 		"Not decided: exactly-once for all push histories and timings, zstd round trip, whether the rank keeps every address that still has a parked batch (purge arithmetic)."
 	r.Assumptions = []string{"channel FIFO and the Go memory model are trusted", "tidwall/hashmap is not safe for concurrent use"}
 	c06Prefix(r)
@@ -27,12 +28,14 @@ func C06(r *core.Report) {
 	c06Reverse(r)
 	c06Handoff(r)
 	c06PartialFlushGuard(r)
+	c06OneBatchPerKeyPerPut(r)
 	r.Floor("C06.R0", 5)
 	r.Floor("C06.R1", 3)
 	r.Floor("C06.R2", 2)
 	r.Floor("C06.R3", 1)
 	r.Floor("C06.R4", 1)
 	r.Floor("C06.R5", 2)
+	r.Floor("C06.R6", 3)
 }
 
 func isUvarintWidthFunc(nm string) bool {
@@ -287,6 +290,12 @@ func c06Drain(r *core.Report) {
 	// (b) the exit edge of an inline range over the container whose body flushes
 	isDrainBody := func(body ast.Node, inf *types.Info) bool {
 		ok := false
+		// all parked batches handed to the flusher in one call: flushKVs(container...)
+		for _, c := range core.CallsIn(body, true) {
+			if core.CalleeName(inf, c) == "gsfa.(*GsfaWriter).flushKVs" && c.Ellipsis != token.NoPos && len(c.Args) == 1 && core.ObjOf(inf, c.Args[0]) == container {
+				ok = true
+			}
+		}
 		ast.Inspect(body, func(m ast.Node) bool {
 			rs, isR := m.(*ast.RangeStmt)
 			if !isR || core.ObjOf(inf, rs.X) != container {
@@ -594,4 +603,215 @@ func c06PartialFlushGuard(r *core.Report) {
 	if nSend == 0 {
 		r.Undecided(rule, f.Key+"#send", posP(r, f.Pos()), "send on fullBufferWriterChan not found")
 	}
+}
+
+// c06OneBatchPerKeyPerPut (C06.R6): LinkedLog.Put orders the batches it is given by address with an unstable sort, so two
+// batches of one address in the same call may be linked in either order. Every caller therefore passes batches one at a
+// time, or accumulates them in a slice that provably never holds two batches of one address (a Has(key) test that
+// flushes before parking), unless Put's sort is stable.
+func c06OneBatchPerKeyPerPut(r *core.Report) {
+	const rule = "C06.R6"
+	p := r.Prog
+	put := r.Anchor(rule, "gsfa/linkedlog.(*LinkedLog).Put")
+	if put == nil {
+		return
+	}
+	pinfo := put.Pkg.TypesInfo
+	stable := true
+	for _, c := range core.CallsIn(put.Body, false) {
+		switch core.CalleeName(pinfo, c) {
+		case "sort.Slice", "sort.Sort", "slices.SortFunc", "slices.Sort":
+			stable = false
+		}
+	}
+	if stable {
+		r.OK(rule, put.Key+"#keeps-relative-order", posP(r, put.Pos()), "Put keeps the relative order of batches with equal keys (stable or no sort)")
+		return
+	}
+	r.OK(rule, put.Key+"#unstable-sort-noted", posP(r, put.Pos()), "Put sorts its batches by key with an unstable sort: callers are checked for key-uniqueness per call")
+	n := 0
+	for _, f := range p.FuncsInPkg("gsfa") {
+		if f.Body == nil || strings.HasSuffix(p.FileOf(f.Pos()), "_test.go") {
+			continue
+		}
+		for _, w := range f.AllWithLits() {
+			info := w.Pkg.TypesInfo
+			for _, c := range core.CallsIn(w.Body, false) {
+				nm := core.CalleeName(info, c)
+				first := 0
+				switch nm {
+				case "gsfa.(*GsfaWriter).flushKVs":
+				case "gsfa/linkedlog.(*LinkedLog).Put":
+					first = 2
+				default:
+					continue
+				}
+				if w.Key == "gsfa.(*GsfaWriter).flushKVs" && nm == "gsfa/linkedlog.(*LinkedLog).Put" {
+					continue // the forwarding wrapper; its callers are checked
+				}
+				n++
+				k := fmt.Sprintf("%s#call:%s@%d", f.Key, nm[strings.LastIndex(nm, ".")+1:], n)
+				args := c.Args[first:]
+				if c.Ellipsis == token.NoPos {
+					r.Check(len(args) <= 1, rule, k, pos(r, c), "one batch per call", "several batches are passed in one call and nothing shows that their addresses differ")
+					continue
+				}
+				s := core.ObjOf(info, args[len(args)-1])
+				if s == nil {
+					r.Undecided(rule, k, pos(r, c), "spread argument is not a variable")
+					continue
+				}
+				ok, why := keyUniqueAccumulation(p, f.Root(), s)
+				r.Check(ok, rule, k, pos(r, c), "the spread slice never holds two batches of one address (a Has(key) test flushes before parking)",
+					"all parked batches are handed to one Put call, which sorts them by address with an unstable sort, and "+why+": two full batches of one address can be linked in the wrong order (newest-first order broken)")
+			}
+		}
+	}
+	if n == 0 {
+		r.Undecided(rule, "gsfa#put-callers", "", "no caller of flushKVs / Put found")
+	}
+}
+
+// keyUniqueAccumulation: every `s = append(s, b)` in root (and its literals) comes after an if whose condition has
+// `s.Has(b.Key)` (or a variable holding it) as a disjunct and whose body empties s (directly or through a local closure).
+func keyUniqueAccumulation(p *core.Prog, root *core.Func, s types.Object) (bool, string) {
+	nApp := 0
+	for _, w := range root.AllWithLits() {
+		info := w.Pkg.TypesInfo
+		var fail string
+		ast.Inspect(w.Body, func(n ast.Node) bool {
+			if _, isLit := n.(*ast.FuncLit); isLit && n != ast.Node(w.Lit) {
+				return false
+			}
+			blk, ok := n.(*ast.BlockStmt)
+			if !ok {
+				return true
+			}
+			for i, st := range blk.List {
+				as, ok := st.(*ast.AssignStmt)
+				if !ok || len(as.Lhs) != 1 || len(as.Rhs) != 1 || core.ObjOf(info, as.Lhs[0]) != s {
+					continue
+				}
+				c, ok := core.Unparen(as.Rhs[0]).(*ast.CallExpr)
+				if !ok || core.BuiltinName(info, c) != "append" || len(c.Args) != 2 {
+					continue
+				}
+				nApp++
+				b := core.ObjOf(info, c.Args[1])
+				guarded := false
+				for j := i - 1; j >= 0 && !guarded; j-- {
+					is, ok := blk.List[j].(*ast.IfStmt)
+					if !ok {
+						continue
+					}
+					if hasKeyDisjunct(info, blk, is.Cond, s, b) && emptiesSlice(p, root, is.Body, s) {
+						guarded = true
+					}
+				}
+				if !guarded {
+					fail = "the batch is parked without testing whether a batch of the same address is already parked"
+				}
+			}
+			return true
+		})
+		if fail != "" {
+			return false, fail
+		}
+	}
+	if nApp == 0 {
+		return false, "the accumulation of the spread slice was not found"
+	}
+	return true, ""
+}
+
+func hasKeyDisjunct(info *types.Info, blk *ast.BlockStmt, cond ast.Expr, s, b types.Object) bool {
+	var disj func(e ast.Expr) []ast.Expr
+	disj = func(e ast.Expr) []ast.Expr {
+		e = core.Unparen(e)
+		if be, ok := e.(*ast.BinaryExpr); ok && be.Op == token.LOR {
+			return append(disj(be.X), disj(be.Y)...)
+		}
+		return []ast.Expr{e}
+	}
+	isHas := func(e ast.Expr) bool {
+		c, ok := core.Unparen(e).(*ast.CallExpr)
+		if !ok || len(c.Args) != 1 {
+			return false
+		}
+		sel, ok := core.Unparen(c.Fun).(*ast.SelectorExpr)
+		if !ok || sel.Sel.Name != "Has" || core.ObjOf(info, sel.X) != s {
+			return false
+		}
+		ks, ok := core.Unparen(c.Args[0]).(*ast.SelectorExpr)
+		return ok && ks.Sel.Name == "Key" && core.ObjOf(info, ks.X) == b
+	}
+	for _, d := range disj(cond) {
+		if isHas(d) {
+			return true
+		}
+		if id, ok := d.(*ast.Ident); ok {
+			o := info.Uses[id]
+			for _, st := range blk.List {
+				if as, ok := st.(*ast.AssignStmt); ok && len(as.Lhs) == 1 && len(as.Rhs) == 1 {
+					if lid, ok := as.Lhs[0].(*ast.Ident); ok && (info.Defs[lid] == o || info.Uses[lid] == o) && isHas(as.Rhs[0]) {
+						return true
+					}
+				}
+			}
+		}
+	}
+	return false
+}
+
+// emptiesSlice: the block assigns a fresh/empty value to s, or calls a local closure whose body does.
+func emptiesSlice(p *core.Prog, root *core.Func, body ast.Node, s types.Object) bool {
+	info := root.Pkg.TypesInfo
+	direct := func(n ast.Node) bool {
+		found := false
+		ast.Inspect(n, func(m ast.Node) bool {
+			as, ok := m.(*ast.AssignStmt)
+			if !ok || len(as.Lhs) != 1 || len(as.Rhs) != 1 || core.ObjOf(info, as.Lhs[0]) != s {
+				return true
+			}
+			switch x := core.Unparen(as.Rhs[0]).(type) {
+			case *ast.CallExpr:
+				if core.BuiltinName(info, x) == "make" {
+					found = true
+				}
+			case *ast.SliceExpr:
+				if x.High != nil {
+					if v, ok := core.ConstInt(info, x.High); ok && v == 0 {
+						found = true
+					}
+				}
+			case *ast.Ident:
+				if x.Name == "nil" {
+					found = true
+				}
+			}
+			return true
+		})
+		return found
+	}
+	if direct(body) {
+		return true
+	}
+	ok := false
+	ast.Inspect(body, func(m ast.Node) bool {
+		c, isC := m.(*ast.CallExpr)
+		if !isC {
+			return true
+		}
+		id, isId := core.Unparen(c.Fun).(*ast.Ident)
+		if !isId {
+			return true
+		}
+		for _, l := range root.AllWithLits() {
+			if l.Lit != nil && closureName(root, l) == id.Name && direct(l.Body) {
+				ok = true
+			}
+		}
+		return true
+	})
+	return ok
 }
